@@ -319,7 +319,7 @@ def struct_rules(ctx, item):
         pa = item.hp(ha)
         det = 'cond %s address %s (%s)' % (cond[:80], pa[0], pa[3])
         svp, svok = item.vis_path(va)
-        oksg = 'singleton' in cond and pa[0] is not None and ('upvar' in pa[0] or pa[0].endswith('singleton') or pa[0] in ('address',)) and svok and svp == 'definition.visibility'
+        oksg = present_exact(item.opts[int(o)][1], 'singleton') and pa[0] is not None and ('upvar' in pa[0] or pa[0].endswith('singleton') or pa[0] in ('address',)) and svok and svp == 'definition.visibility'
         # the address is the payload of the Option the OPT tests
         oksg = oksg and strip(item.opts[int(o)][1][1] if item.opts[int(o)][1][0] == 'is_some' else ('x',)) is not None
     ctx.ob(['C15', 'C17'], 'R-TMPL', 'struct|singleton', oksg,
@@ -334,7 +334,7 @@ def struct_rules(ctx, item):
         p1, p2, pb = item.hp(t1), item.hp(t2), item.hp(hb)
         labs = item.alts[int(a)][1]
         det = 'cond %s ret %s cast %s base %s alt %s' % (cond[:60], p1[0], p2[0], pb[0], labs)
-        okv = 'vftable' in cond and p1[0] is not None and p1[0] == p2[0] and p1[0].endswith('.type_') and pb[0] is not None and 'base_field' in pb[0] and \
+        okv = present_exact(item.opts[int(o)][1], 'vftable') and p1[0] is not None and p1[0] == p2[0] and p1[0].endswith('.type_') and pb[0] is not None and 'base_field' in pb[0] and \
             len(labs) == 2 and 'base_field' in labs[0] and labs[0].endswith('=Some') and labs[1].endswith('=None')
     ctx.ob(['C06', 'C04'], 'R-TMPL', 'struct|vftable-accessor', okv,
            'vftable() returns self.<base field>.vftable() when the pointer lives in a base, self.vftable otherwise, cast to the type\'s own table pointer type: %s' % det, where)
@@ -414,7 +414,15 @@ def struct_rules(ctx, item):
                         per_elem = not cycle_without(g, L[1], L[0], {c['block']}) and bool(find_calls_(src_, 'dfs_hierarchy')) and \
                             not any(re.search(r'Iterator::(rev|skip|take|filter|step_by|map_while|scan|take_while|skip_while|fuse|cycle)$', c_[3]) for c_ in calls_in(src_))
                 same_elem = key[0] == 'field' and val[0] == 'field' and strip(key[1]) == strip(val[1]) and key[2] != val[2]
-                detg = 'push(entry(%s).or_default(), %s), once per hierarchy entry: %s' % (show(key)[:30], show(val)[:30], per_elem)
+                # the groups are keyed by the very component the impls are written for (the full type), and the conflict test
+                # looks its group up by that component: two different types never share a group
+                if m:
+                    tcomp = strip(te)[2] if strip(te)[0] == 'field' else None
+                    lookups = [strip(x[2][1]) for arm_ in item.alts[int(alt)][3] for c_ in arm_ for x in walk(c_[0] if isinstance(c_, tuple) and c_ and isinstance(c_[0], tuple) else c_) if is_call_(x, 'Index') and len(x[2]) == 2]
+                    look_ok = bool(lookups) and all(k_[0] == 'field' and k_[2] == tcomp for k_ in lookups)
+                    same_elem = same_elem and tcomp is not None and key[2] == tcomp and look_ok
+                    detg_extra = ' key component %s, impl type component %s, lookups %s' % (key[2], tcomp, [show(k_)[:20] for k_ in lookups][:2])
+                detg = 'push(entry(%s).or_default(), %s), once per hierarchy entry: %s%s' % (show(key)[:30], show(val)[:30], per_elem, detg_extra if m else '')
                 okg = per_elem and same_elem
         # nothing else writes a map of that type
         others = [c for g in [bt_] + ctx.prog.closures_of(bt_) for c in g.calls(lambda r: r['path'] and re.search(r'HashMap<&syn::Type, .*>::(insert|extend|remove)$|FromIterator<\(&syn::Type', (r['callee'].get('rfull') or '')))]
@@ -505,7 +513,7 @@ def enum_rules(ctx, item):
         pa = item.hp(ha)
         det = 'cond %s address %s' % (cond[:80], pa[0])
         gvp, gvok = item.vis_path(va)
-        okg = 'singleton' in cond and pa[0] is not None and 'hex_literal' in pa[1] and gvok and gvp == 'definition.visibility'
+        okg = present_exact(item.opts[int(o)][1], 'singleton') and pa[0] is not None and 'hex_literal' in pa[1] and gvok and gvp == 'definition.visibility'
     ctx.ob(['C15'], 'R-TMPL', 'enum|singleton', okg, 'an enum singleton returns the value stored at the declared address (`*(A as *const Self)`, one dereference): %s' % det, where)
 
 
@@ -513,6 +521,17 @@ def enum_rules(ctx, item):
 ARGS_DECL = r'REP(\d+)\( ⟨E\d+:ALT(\d+)\{ & self \|\| & mut self \|\| ' + H + ' : ' + H + r' \}⟩ \),\*'
 ARGS_PTR = r'REP(\d+)\( ⟨E\d+:ALT(\d+)\{ \w+ : \* const Self \|\| \w+ : \* mut Self \|\| ' + H + ' : ' + H + r' \}⟩ \),\*'
 ARGS_CALL = r'REP(\d+)\( ⟨E\d+:ALT(\d+)\{ self as \* const Self as _ \|\| self as \* mut Self as _ \|\| ' + H + r' \}⟩ \),\*'
+
+
+def present_exact(cond, field):
+    """the optional part is present exactly when the Option `<…>.<field>` is Some: is_some of that field seen through
+    reference adapters only (no filter / and_then / zip that could drop it while it is declared)"""
+    if not (isinstance(cond, tuple) and cond and cond[0] == 'is_some'):
+        return False
+    x = strip(cond[1])
+    while x[0] == 'call' and re.search(r'(Option::<T>::(as_ref|as_deref|as_mut|copied|cloned)|::clone|::deref|::borrow)$', x[1]) and x[2]:
+        x = strip(x[2][0])
+    return x[0] == 'field' and x[2] == field
 
 
 def ret_present_exact(cond):
